@@ -2,7 +2,33 @@
 
 use mc::{json, Value};
 use walkit::frame::Rec;
+use walkit::hostrun::Run;
 use walkit::store::BuiltLog;
+
+/// What the damage operators need to know about a log.
+pub trait SegLog {
+    fn seg(&self) -> &[u8];
+    fn recs(&self) -> &[Rec];
+    fn ntx(&self) -> usize {
+        self.recs().iter().filter(|r| r.is_commit()).count()
+    }
+}
+impl SegLog for BuiltLog {
+    fn seg(&self) -> &[u8] {
+        &self.segment
+    }
+    fn recs(&self) -> &[Rec] {
+        &self.records
+    }
+}
+impl SegLog for Run {
+    fn seg(&self) -> &[u8] {
+        &self.seg
+    }
+    fn recs(&self) -> &[Rec] {
+        &self.records
+    }
+}
 
 /// One damage descriptor (cheap; the damaged bytes are produced by [`apply`]).
 #[derive(Clone, Debug, PartialEq, Eq)]
@@ -72,10 +98,10 @@ fn rk(r: &Rec) -> &'static str {
 }
 
 /// Records of transaction t (frames + its commit marker) as an index range.
-pub fn tx_records(log: &BuiltLog, t: usize) -> std::ops::Range<usize> {
+pub fn tx_records(log: &dyn SegLog, t: usize) -> std::ops::Range<usize> {
     let mut start = 0;
     let mut seen = 0;
-    for (i, r) in log.records.iter().enumerate() {
+    for (i, r) in log.recs().iter().enumerate() {
         if r.is_commit() {
             if seen == t {
                 return start..i + 1;
@@ -88,22 +114,22 @@ pub fn tx_records(log: &BuiltLog, t: usize) -> std::ops::Range<usize> {
 }
 
 /// Transaction index of record i.
-pub fn tx_of_record(log: &BuiltLog, i: usize) -> usize {
-    log.records[..i].iter().filter(|r| r.is_commit()).count()
+pub fn tx_of_record(log: &dyn SegLog, i: usize) -> usize {
+    log.recs()[..i].iter().filter(|r| r.is_commit()).count()
 }
 
 /// Class label of a damage (goes into signatures and histograms).
-pub fn class(log: &BuiltLog, m: &M) -> String {
-    let n = log.n();
+pub fn class(log: &dyn SegLog, m: &M) -> String {
+    let n = log.ntx();
     let pos = |t: usize| if t + 1 == n { "last-tx" } else { "non-last-tx" };
     match m {
         M::Flip { .. } => "flip".into(),
         M::Zero { len, .. } => format!("zero{len}"),
-        M::Delete(i) => format!("delete-{}({})", rk(&log.records[*i]), pos(tx_of_record(log, *i))),
-        M::DupHere(i) => format!("dup-{}-in-place", rk(&log.records[*i])),
-        M::DupEnd(i) => format!("dup-{}-at-end", rk(&log.records[*i])),
-        M::Swap(i) => format!("swap-{}-{}", rk(&log.records[*i]), rk(&log.records[*i + 1])),
-        M::Transplant(i) => format!("transplant-{}", rk(&log.records[*i])),
+        M::Delete(i) => format!("delete-{}({})", rk(&log.recs()[*i]), pos(tx_of_record(log, *i))),
+        M::DupHere(i) => format!("dup-{}-in-place", rk(&log.recs()[*i])),
+        M::DupEnd(i) => format!("dup-{}-at-end", rk(&log.recs()[*i])),
+        M::Swap(i) => format!("swap-{}-{}", rk(&log.recs()[*i]), rk(&log.recs()[*i + 1])),
+        M::Transplant(i) => format!("transplant-{}", rk(&log.recs()[*i])),
         M::SpliceTx(t) => format!("splice-transaction({})", pos(*t)),
         M::AppendForeignTx(_) => "append-foreign-transaction".into(),
         M::DeleteTx(t) => format!("delete-transaction({})", if *t == 0 && n > 1 { "first" } else { pos(*t) }),
@@ -124,9 +150,9 @@ pub fn family(m: &M) -> &'static str {
 }
 
 /// All damage descriptors for one log.
-pub fn enumerate_ops(a: &BuiltLog, b: &BuiltLog, flips: bool, zero: bool) -> Vec<M> {
+pub fn enumerate_ops(a: &dyn SegLog, b: &dyn SegLog, flips: bool, zero: bool) -> Vec<M> {
     let mut out = Vec::new();
-    let len = a.segment.len();
+    let len = a.seg().len();
     if flips {
         for off in 0..len {
             for bit in 0..8u8 {
@@ -145,7 +171,7 @@ pub fn enumerate_ops(a: &BuiltLog, b: &BuiltLog, flips: bool, zero: bool) -> Vec
             l *= 2;
         }
     }
-    let nrec = a.records.len();
+    let nrec = a.recs().len();
     for i in 0..nrec {
         out.push(M::Delete(i));
         out.push(M::DupHere(i));
@@ -153,12 +179,12 @@ pub fn enumerate_ops(a: &BuiltLog, b: &BuiltLog, flips: bool, zero: bool) -> Vec
         if i + 1 < nrec {
             out.push(M::Swap(i));
         }
-        if b.records.len() == nrec {
+        if b.recs().len() == nrec {
             out.push(M::Transplant(i));
         }
     }
-    for t in 0..a.n() {
-        if b.n() == a.n() {
+    for t in 0..a.ntx() {
+        if b.ntx() == a.ntx() {
             out.push(M::SpliceTx(t));
             out.push(M::AppendForeignTx(t));
         }
@@ -167,17 +193,17 @@ pub fn enumerate_ops(a: &BuiltLog, b: &BuiltLog, flips: bool, zero: bool) -> Vec
     out
 }
 
-fn rec_bytes<'a>(log: &'a BuiltLog, i: usize) -> &'a [u8] {
-    let r = &log.records[i];
-    &log.segment[r.start..r.end]
+fn rec_bytes<'a>(log: &'a dyn SegLog, i: usize) -> &'a [u8] {
+    let r = &log.recs()[i];
+    &log.seg()[r.start..r.end]
 }
 
 /// Damaged segment bytes (None when the operator does not change the image).
-pub fn apply(a: &BuiltLog, b: &BuiltLog, m: &M) -> Option<Vec<u8>> {
-    let seg = &a.segment;
+pub fn apply(a: &dyn SegLog, b: &dyn SegLog, m: &M) -> Option<Vec<u8>> {
+    let seg: &[u8] = a.seg();
     let out = match m {
         M::Flip { off, bit } => {
-            let mut v = seg.clone();
+            let mut v = seg.to_vec();
             v[*off] ^= 1 << bit;
             v
         }
@@ -186,45 +212,45 @@ pub fn apply(a: &BuiltLog, b: &BuiltLog, m: &M) -> Option<Vec<u8>> {
             if seg[*off..end].iter().all(|x| *x == 0) {
                 return None;
             }
-            let mut v = seg.clone();
+            let mut v = seg.to_vec();
             v[*off..end].iter_mut().for_each(|x| *x = 0);
             v
         }
         M::Delete(i) => {
-            let r = &a.records[*i];
+            let r = &a.recs()[*i];
             [&seg[..r.start], &seg[r.end..]].concat()
         }
         M::DupHere(i) => {
-            let r = &a.records[*i];
+            let r = &a.recs()[*i];
             [&seg[..r.end], rec_bytes(a, *i), &seg[r.end..]].concat()
         }
         M::DupEnd(i) => [&seg[..], rec_bytes(a, *i)].concat(),
         M::Swap(i) => {
-            let (x, y) = (&a.records[*i], &a.records[*i + 1]);
+            let (x, y) = (&a.recs()[*i], &a.recs()[*i + 1]);
             [&seg[..x.start], &seg[y.start..y.end], &seg[x.start..x.end], &seg[y.end..]].concat()
         }
         M::Transplant(i) => {
-            let r = &a.records[*i];
+            let r = &a.recs()[*i];
             [&seg[..r.start], rec_bytes(b, *i), &seg[r.end..]].concat()
         }
         M::SpliceTx(t) => {
             let (ra, rb) = (tx_records(a, *t), tx_records(b, *t));
-            let (s, e) = (a.records[ra.start].start, a.records[ra.end - 1].end);
-            let (bs, be) = (b.records[rb.start].start, b.records[rb.end - 1].end);
-            [&seg[..s], &b.segment[bs..be], &seg[e..]].concat()
+            let (s, e) = (a.recs()[ra.start].start, a.recs()[ra.end - 1].end);
+            let (bs, be) = (b.recs()[rb.start].start, b.recs()[rb.end - 1].end);
+            [&seg[..s], &b.seg()[bs..be], &seg[e..]].concat()
         }
         M::AppendForeignTx(t) => {
             let rb = tx_records(b, *t);
-            let (bs, be) = (b.records[rb.start].start, b.records[rb.end - 1].end);
-            [&seg[..], &b.segment[bs..be]].concat()
+            let (bs, be) = (b.recs()[rb.start].start, b.recs()[rb.end - 1].end);
+            [&seg[..], &b.seg()[bs..be]].concat()
         }
         M::DeleteTx(t) => {
             let ra = tx_records(a, *t);
-            let (s, e) = (a.records[ra.start].start, a.records[ra.end - 1].end);
+            let (s, e) = (a.recs()[ra.start].start, a.recs()[ra.end - 1].end);
             [&seg[..s], &seg[e..]].concat()
         }
     };
-    if &out == seg {
+    if out == seg {
         None
     } else {
         Some(out)
